@@ -216,6 +216,70 @@ def check_error(src, load=None):
         return None, {"class": classify_exc(e)}   # non-Liquid errors are C02's business
 
 
+# ------------------------------------------------------------------ expression tokens (liquid/builtin/expressions/_tokenize.py)
+EXPR_PIECES = ["a", "b.c", "x-y", "q?", "true", "and", "or", "not", "in", "contains", "limit", "1", "23", "-4", "1.5", "-2.", "3..4",
+               "..", ".", "(", ")", "(1..n)", "(a.b..c)", "((1..2))", "[", "]", "[0]", "[ -12 ]", "['k']", '[ "k l" ]', "['a'b']",
+               "'s t'", '"u"', "'", '"', ":", ",", "|", "||", "==", "!=", "<>", "<=", ">=", "<", ">", "=", "=>", "!", " ", "\n",
+               "\t", "-", "&", "%", "_", "7a", "a1", "a_b", "forloop.index", "x | f: y, k: 'v'"]
+EKIND = {"rangeexpression": "ERangeLit", "identindex": "EIdentIndex", "identstring": "EIdentString", "string": "EString",
+         "range": "ERange", "float": "EFloat", "integer": "EInteger", "dot": "EDot", "word": "EWord", "lparen": "ELparen",
+         "rparen": "ERparen", "lbracket": "ELbracket", "rbracket": "ERbracket", "colon": "EColon", "comma": "EComma",
+         "dpipe": "EDpipe", "pipe": "EPipe", "eq": "EEq", "ne": "ENe", "ltgt": "ELtGt", "lt": "ELt", "gt": "EGt", "le": "ELe",
+         "ge": "EGe", "assign": "EAssign"}
+KEYWORDS = {"true", "false", "nil", "null", "empty", "blank", "and", "or", "contains", "not", "in", "offset", "limit", "reversed",
+            "cols", "continue", "with", "for", "as", "if", "else", "required"}
+
+
+def gen_expression(rng):
+    return "".join(rng.choice(EXPR_PIECES) if rng.random() < 0.7 else rng.choice("ab.()[]'\"-?01 |=<>!:,")
+                   for _ in range(rng.randrange(0, 9)))
+
+
+def real_expr_tokens(base, src):
+    """(tokens, error-token | None): every token the expression tokenizer yields before it stops."""
+    from liquid.builtin.expressions import tokenize
+    from liquid.exceptions import LiquidSyntaxError
+    from liquid.token import Token
+
+    out = []
+    try:
+        for t in tokenize(src, Token("expression", src, base, "#" * base + src)):
+            out.append((t.kind, t.value, t.start_index))
+        return out, None
+    except LiquidSyntaxError as e:
+        return out, (e.token.kind, e.token.value, e.token.start_index)
+
+
+def expr_token_problem(base, src, tok):
+    """The documented reading of an expression token's location: its text is the expression text at its start; for a
+    string the text after the opening quote; for a bracketed identifier the text after '[', whitespace (and the quote)."""
+    kind, value, start = tok
+    o = start - base
+    if not (0 <= o < len(src)):
+        return f"token {tok} starts outside the expression"
+    if kind == "string":
+        ok = src[o] in "'\"" and src[o + 1:o + 1 + len(value)] == value and src[o + 1 + len(value):o + 2 + len(value)] == src[o]
+    elif kind in ("identindex", "identstring"):
+        rest = src[o + 1:]
+        k = len(rest) - len(rest.lstrip())
+        inner = rest[k:]
+        ok = src[o] == "[" and (inner.startswith(value) if kind == "identindex"
+                                else inner[:1] in ("'", '"') and inner[1:1 + len(value)] == value)
+    else:
+        ok = src[o:o + len(value)] == value
+    return None if ok else f"token {tok} is not the text of the expression at its start offset"
+
+
+def g_eitems(toks, err):
+    items = []
+    for k, v, s in toks:
+        kind = "EKeyword" if (k == v and k in KEYWORDS) else EKIND[k]
+        items.append(f"ETok (Build_etoken {kind} {g_str(v)} {s}%N)")
+    if err is not None:
+        items.append(("EErrOp " if err[0] == "OP" else "EErrIllegal ") + f"{g_str(err[1])} {err[2]}%N")
+    return "[" + "; ".join(items) + "]"
+
+
 # ------------------------------------------------------------------ Gallina
 def g_tagspans(spans):
     return "[" + "; ".join(f"({g_str(n)}, {i}%N)" for n, i in spans) + "]"
@@ -237,15 +301,18 @@ def run(ck: Check) -> None:
         "(a breaker fragment inserted at a random position, characters deleted). Observed: every Span of template.analyze() "
         "(sync and async) and analyze_tags_from_string, Span.line_col; for sources that fail to parse the error's token, str(err), "
         "detailed_message(), context(). Model side: (tag name, index) of every tag incl. the inner tags of liquid tags, "
-        "line/column of every reported index. Non-trivial = at least one span or an error position was checked."
+        "line/column of every reported index; plus generated expression texts (paths, brackets, strings, numbers, ranges, "
+        "operators, keywords, stray characters) tokenized by liquid.builtin.expressions.tokenize with random parent offsets: "
+        "(kind, value, start) of every token and of the error token. Non-trivial = at least one span, token or error position was checked."
     )
     ck.exhaustive = False
     ck.trusted_base = [
         "Coq 8.16.1 kernel + vm_compute",
         "harness: template/malformed-source generators, span and error oracles (props/c20.py), Gallina printers",
         "modelled not verified: Python re on the lexer rules and on the liquid-tag line rules, str.splitlines boundaries "
-        "(Lex.line_lens); the expression tokenizer (_tokenize.py) is NOT modelled: expression-token offsets are covered by the "
-        "composition lemma C20_offset_composition plus the span oracle",
+        "(Lex.line_lens), Python re on the expression rules (ExprLex.v), \\w and \\d on ASCII only",
+        "expression tokens are read through liquid.builtin.expressions.tokenize (exported by that package, not part of the "
+        "documented API): it is the only path that exposes every token",
     ]
     ck.assumptions = [
         "which token each AST node keeps as its location is observed (oracle), not proved",
@@ -323,6 +390,40 @@ def run(ck: Check) -> None:
     ck.sample({"source": span_meta[len(span_meta) // 2][0], "tags": span_meta[len(span_meta) // 2][1]})
     ck.sample({"source": lc_meta[-1][0], "index": lc_meta[-1][1], "line_col": lc_meta[-1][2]})
 
+    # ---------------- expression tokens: every (kind, value, start) of the expression tokenizer vs the model
+    ecases, eexpected, emeta = [], [], []
+    for _ in range(1500 if ck.quick else 20000):
+        esrc = gen_expression(rng)
+        base = rng.randrange(0, 40)
+        toks, err = real_expr_tokens(base, esrc)
+        ck.count("expressions")
+        ck.count("expression-tokens", len(toks))
+        if err is not None:
+            ck.count("expression-errors." + err[0])
+        ck.note_case(("expr", esrc), nontrivial=bool(toks) or err is not None)
+        for tk in toks + ([err] if err else []):
+            pb = expr_token_problem(base, esrc, tk) if tk is not err else (
+                None if 0 <= tk[2] - base < len(esrc) and esrc[tk[2] - base:tk[2] - base + len(tk[1])] == tk[1]
+                else f"error token {tk} is not inside the expression at its own text")
+            if pb:
+                report("c20-expr-token:" + tk[0], f"expression {esrc!r} (parent start {base}): {pb}",
+                       {"type": "expr", "source": esrc, "base": base})
+        ecases.append(f"{{| ec_base := {base}%N; ec_src := {g_str(esrc)} |}}")
+        eexpected.append(g_eitems(toks, err))
+        emeta.append((base, esrc, toks, err))
+    ck.sample({"expression": emeta[len(emeta) // 2][1], "tokens": emeta[len(emeta) // 2][2], "error": emeta[len(emeta) // 2][3]})
+    mm = ck.coq_mismatches("exprtok", "Lex ExprLex", "run_etokens", "eitems_eqb", "ecase", "list eitem",
+                           ecases, eexpected, chunk=400)
+    ck.traces += len(ecases)
+    for i in mm[:3]:
+        base, esrc, toks, err = emeta[i]
+        model = ck.coq_eval("Lex ExprLex", [f"run_etokens {{| ec_base := {base}%N; ec_src := {g_str(esrc)} |}}"])[0]
+        ck.violation("correspondence", "c20-expr-token-correspondence",
+                     f"model ExprLex.etokenize and liquid.builtin.expressions.tokenize disagree on {esrc!r}",
+                     {"type": "expr-model", "source": esrc, "base": base, "impl": [toks, err], "model": model[:1500],
+                      "broken": "correspondence ExprLex.etokenize ~ _tokenize.tokenize (theorems C20_expr_token_offsets, "
+                                "C20_expr_tokens_in_source)"}, no_input=True)
+
     mm = ck.coq_mismatches("tagspans", IMPORTS, "run_tag_spans", "spans_eqb", "lexcase", "list (str * N)",
                            span_cases, span_expected, chunk=250, preamble=PREAMBLE)
     ck.traces += len(span_cases)
@@ -365,6 +466,12 @@ def replay(data) -> int:
         print("source:", repr(src))
         print("error:", info and info.get("class"), "problem:", problem)
         bad = problem is not None
+    elif case.get("type") == "expr":
+        toks, err = real_expr_tokens(case["base"], src)
+        problems = [p for p in (expr_token_problem(case["base"], src, t) for t in toks) if p]
+        print("expression:", repr(src), "tokens:", toks, "error:", err)
+        print("problems:", problems)
+        bad = bool(problems)
     elif case.get("type") == "spans":
         problems = []
         try:
